@@ -285,6 +285,46 @@ def order_stream(tag):
                        "traversal on Memfs and Stdfs (sandbox) side by side - names are ordered per directory, not as whole path strings")
 
 
+# ---- C02 / C04 / C09: a copier built, the working directory changed, then the copier run: paths are read when it runs, on both backends ------
+def deferred_copy_stream(tag):
+    hs = []
+    pre = [op("mkdir_p", "/a"), op("mkdir_p", "/b"), op("write_all", "/a/f", b"from-a"), op("write_all", "/b/f", b"from-b"), op("set_cwd", "/a")]
+    for src, dst in [("f", "g"), ("./f", "../g"), ("f", "/abs-g"), ("/a/f", "g"), ("../a/f", "g")]:
+        for o in ["cwd=%s" % hx("../b"), "cwd=%s" % hx("../b") + ",all=384", "cwd=%s" % hx(".")]:
+            hs.append(_line("x", pre + ["copy_b:%s:%s:%s" % (hx(src), hx(dst), o), op("read_all", "/a/g"), op("read_all", "/b/g"), op("read_all", "/g"), op("read_all", "/abs-g"),
+                                        op("cwd"), op("all_paths", "/")]))
+    return Stream(tag + "-copier-after-cwd-change-both-backends", "pycheck", hs, impl_env=c_wrap.sandbox_env(tag), pycheck=x_eq_strict, exhaustive=True, nontrivial=lambda l, o: True,
+                  rule="copy_b with relative paths, the working directory changed before exec(): both backends read the paths when the copier runs")
+
+
+# ---- C05: the working directory gone, absolute arguments still resolve (Stdfs on its own answers) ------------------------------------------------
+def cwd_gone_stream(tag):
+    pre = [op("mkdir_p", "/d/e"), op("mkdir_p", "/keep"), op("write_all", "/keep/f", b"k"), op("set_cwd", "/d/e"), op("remove_all", "/d")]
+    calls = [(op("abs", "/keep/./x/.."), "p" + "/keep".encode().hex()), (op("abs", "/keep//f/"), "p" + "/keep/f".encode().hex()), (op("exists", "/keep"), "b1"),
+             (op("is_dir", "/keep"), "b1"), (op("is_file", "/keep/f"), "b1"), (op("read_all", "/keep/f"), "d" + b"k".hex()), (op("mkdir_p", "/keep/n"), "p" + "/keep/n".encode().hex()),
+             (op("write_all", "/keep/w", b"w"), "ok"), (op("set_cwd", "/keep"), "p" + "/keep".encode().hex())]
+    hs = [_line("s", pre + [c]) for c, _ in calls]
+    want = {h: w for h, (_, w) in zip(hs, calls)}
+    return Stream(tag + "-cwd-gone-stdfs", "pycheck", hs, impl_env=c_wrap.sandbox_env(tag), pycheck=lambda l, o: _res(o)[-1] == want[l], exhaustive=True,
+                  rule="the process working directory removed, then calls with absolute arguments on the real filesystem backend: abs does no IO and the calls answer as usual")
+
+
+# ---- C11: chmod over a tree that holds links next to files and directories of the same mode, both backends ----------------------------------------
+def chmod_links_stream(tag):
+    hs = []
+    pre = [op("mkdir_p", "/outside"), op("write_all", "/outside/target", b"t"), op("mkdir_p", "/outside/tdir"), op("mkdir_p", "/t/c_dir"), op("symlink", "/t/a_link", "../outside/target"),
+           op("write_all", "/t/b_file", b"b"), op("symlink", "/t/a_dlink", "../outside/tdir"), op("write_all", "/t/c_dir/f", b"f"), op("write_all", "/t/z_file", b"z")]
+    probes = [op("mode", p) for p in ["/t", "/t/b_file", "/t/z_file", "/t/c_dir", "/t/c_dir/f", "/outside/target", "/outside/tdir"]]
+    for sym in ["f:u+x", "f:a+x,d:go-w", "a:go-rwx", "d:a+w", "f:u=rw", "a:a-x"]:
+        for o in ["", "norecurse", "follow=1"]:
+            hs.append(_line("x", pre + ["chmod_b:%s:%s:%s" % (hx("/t"), o, hx(sym))] + probes))
+    for o in ["all=448", "dirs=448,files=384", "files=292", "dirs=493,follow=1"]:
+        hs.append(_line("x", pre + ["chmod_b:%s:%s:" % (hx("/t"), o)] + probes))
+    return Stream(tag + "-chmod-links-both-backends", "pycheck", hs, impl_env=c_wrap.sandbox_env(tag), pycheck=x_eq_strict, exhaustive=True, nontrivial=lambda l, o: True,
+                  rule="symbolic and octal chmod over a tree holding links to files and directories next to files and directories of the same mode: every mode read back, "
+                       "Memfs and Stdfs (sandbox) side by side")
+
+
 def _extend(mod, pid, extra, note):
     P = dict(mod.PROPS[pid])
     base = P["streams"]
@@ -294,11 +334,12 @@ def _extend(mod, pid, extra, note):
     PROPS[pid] = P
 
 
-_extend(c_path, "C05", lambda tier, rng, ctx: [spelling_stream("c05")], "Stdfs side: the spelling stream runs every method on both backends; the theorems are about the Memfs mirror")
-_extend(c_mem, "C09", lambda tier, rng, ctx: [copy_link_stream("c09")], "Stdfs side: C02, plus the copy-onto-links stream here")
+_extend(c_path, "C05", lambda tier, rng, ctx: [spelling_stream("c05"), cwd_gone_stream("c05g")], "Stdfs side: the spelling stream runs every method on both backends; the theorems are about the Memfs mirror")
+_extend(c_mem, "C09", lambda tier, rng, ctx: [copy_link_stream("c09"), deferred_copy_stream("c09d")], "Stdfs side: C02, plus the copy-onto-links stream here")
 _extend(c_mem, "C10", lambda tier, rng, ctx: c10_std_streams(tier, rng), "Stdfs side: the link clauses and removal of links are judged on Stdfs's own answers (dangling links are outside C02's domain)")
 _extend(c_mem, "C20", c20_std_streams, "Stdfs side: C02 runs every macro on both backends inside its domain; here the macros are judged on Stdfs's own answers, dangling links included")
 _extend(c_mem, "C06", lambda tier, rng, ctx: [hmix_stream("c06h", tier)], "Stdfs side: content laws on both backends, and handles interleaved with other writers judged by the byte-vector model")
 _extend(c_mem, "C07", lambda tier, rng, ctx: [hmix_stream("c07h", tier)], "Stdfs handles interleaved with other writers are judged by the byte-vector model (c_std.py)")
 _extend(c_mem, "C08", lambda tier, rng, ctx: [order_stream("c08o")], "Stdfs side: C02, plus the order stream here")
-_extend(c_wrap, "C02", lambda tier, rng, ctx: [spelling_stream("c02s"), copy_link_stream("c02c"), order_stream("c02o")], "the spelling and copy-onto-links streams are shared with C05 / C09")
+_extend(c_mem, "C11", lambda tier, rng, ctx: [chmod_links_stream("c11l")], "Stdfs side: chmod over trees with links on both backends side by side")
+_extend(c_wrap, "C02", lambda tier, rng, ctx: [spelling_stream("c02s"), copy_link_stream("c02c"), order_stream("c02o"), deferred_copy_stream("c02d"), chmod_links_stream("c02l")], "the spelling and copy-onto-links streams are shared with C05 / C09")
